@@ -25,7 +25,8 @@ META = {
              "whole case."
              ' Also: bytes / bytearray (overwritten by the caller right af'
              'ter the call) / flat memoryview payloads.'
-             " Round 12: in two-scale histories the info is revised through the live accessor before the second scale is written; the second scale is read back by a fresh accessor and the specification-only reader."),
+             " Round 12: in two-scale histories the info is revised through the live accessor before the second scale is written; the second scale is read back by a fresh accessor and the specification-only reader."
+             " Round 18: two scales stored alternately through one accessor."),
     "exhaustive_parts": ["perm_exhaustive: all subsets of a 2x2x2 grid, all "
                          "permutations for <= 5 chunks, triples in a fixed "
                          "list (quick) / all of {0,1,2}^3 (thorough)"],
@@ -54,6 +55,16 @@ def store(path, case, order, strategy, second_scale=False):
     with open(os.path.join(path, "info"), "w") as f:
         json.dump(info, f)
     acc = ShardedFileAccessor(path, strategy=strategy)
+    if second_scale and case["seed"] % 4 == 2:
+        # the two scales are written ALTERNATELY through the one accessor
+        # (chunk of s0, chunk of s1, chunk of s0, ...), closed once at the end
+        for pos, pos1 in zip(order, list(reversed(order))):
+            arr, cc = chunk_array(case, pos)
+            acc.store_chunk(arr.tobytes(), sc.KEY, cc)
+            arr1, cc1 = chunk_array(case, pos1)
+            acc.store_chunk(arr1.tobytes()[::-1], "s1", cc1)
+        acc.close()
+        return info
     for pos in order:
         arr, cc = chunk_array(case, pos)
         buf = arr.tobytes()
